@@ -106,6 +106,24 @@ def extreme_forward(ctx, rep, net, X, nout, offset, regression, case):
         out = net.forward(Xe)
     finally:
         net._weights = old_w
+    # the caller's batch buffer, refilled in place between two calls (Fortran order / a strided view / float32: layouts that need conversion):
+    # the second result is the evaluation of what the buffer holds NOW (a NaN batch first, then the imputed values)
+    for layout in ("F", "strided", "float32"):
+        base = np.asfortranarray(X.copy()) if layout == "F" else (np.repeat(X.copy(), 2, axis=1)[:, ::2] if layout == "strided" else X.astype(np.float32))
+        first_vals = base.copy()
+        base[...] = np.nan
+        if offset:
+            base[:, -1] = 1.0
+        with np.errstate(all="ignore"):
+            _ = net.forward(base)
+        base[...] = first_vals
+        got = net.forward(base)
+        ref = net.copy().forward(np.ascontiguousarray(first_vals, dtype=np.float64))
+        rep.count("forward-buffer-reuse", (id(net), layout), nontrivial=False)
+        if got.shape != ref.shape or not np.allclose(got, ref, rtol=1e-9, atol=1e-12, equal_nan=False):
+            rep.problem("forward", f"forward on a caller's buffer refilled in place ({layout} layout) returns the values of the EARLIER contents (non-finite for finite inputs)",
+                        dict(case, layout=layout, X=np.asarray(first_vals, dtype=np.float64).tolist()), "forward:stale-input", True, np.asarray(got).tolist(), np.asarray(ref).tolist(), "C13_forward_shape")
+            break
     rep.count("forward-extreme", (case.get("desc") if isinstance(case, dict) and "desc" in case else id(net), nout))
     bad = out.shape != (1, Xe.shape[0], nout) or not np.all(np.isfinite(out))
     if not bad and not regression:
